@@ -21,7 +21,7 @@ def run(ctx):
     for name, convs, gens, maxd, steps in CONFIGS[ctx.tier]:
         cfg = cfg0.replace('@CONVS@', convs).replace('@GENS@', gens).replace('@MAXD@', str(maxd)).replace('@STEPS@', str(steps))
         graphcheck.run(ctx, 'ConvStack', cfg, name, ('adapters.convstack', 'make', ()),
-                       'TopWins, GenNoDup, RejectedChangesNothing, PopOnly; convs=%s gens=%s depth<=%d steps<=%d' % (
+                       'TopWins, GenNoDup, Restoration, RejectedChangesNothing, PopOnly, DisciplinedLeaveSucceeds; convs=%s gens=%s depth<=%d steps<=%d' % (
                            convs, gens, maxd, steps),
                        preload=('quantity', 'quantity.money'), replay_info=dict(cfg=cfg))
 
